@@ -332,6 +332,8 @@ func cmdEntropy(args []string) int {
 	par := fs.Int("par", 8, "parallelism")
 	one := fs.String("case", "", "run one case (JSON)")
 	only := fs.String("codecs", "", "comma separated list: keep only the cases of these codecs")
+	tables := fs.String("tables", "", "record the calls of NormalizeFrequencies made by the codecs as NORM events into this file")
+	maxTables := fs.Int("maxtables", 4000, "at most this many distinct recorded calls")
 	fs.Parse(args)
 	if *one != "" {
 		var c entCase
@@ -547,6 +549,58 @@ func cmdEntropy(args []string) int {
 		}
 		cases = kept
 	}
+	var tmu sync.Mutex
+	var tevs []tr.Ev
+	tseen := map[string]bool{}
+	tcalls, tpre := 0, 0
+	if *tables != "" {
+		// every call the codecs make: histogram on entry, table and alphabet on return (hook in the entropy package, build tag verif)
+		entropy.VerifNormHook = func(in, out, alphabet []int, totalFreq, scale int) {
+			var cin, cout, pos []int
+			sum := 0
+			big := false
+			for i, f := range in {
+				if f != 0 {
+					cin, cout, pos = append(cin, f), append(cout, out[i]), append(pos, i)
+					sum += f
+					if int64(f)*int64(scale) >= 1<<30 {
+						big = true
+					}
+				}
+			}
+			tmu.Lock()
+			defer tmu.Unlock()
+			tcalls++
+			if sum != totalFreq || len(cin) == 0 || len(in) != 256 {
+				// not a histogram with its total (the caller's business, reported by the round trip of C12): outside the statement
+				if sum != totalFreq {
+					tpre++
+				}
+				return
+			}
+			alphaOK := true
+			for i, p := range pos {
+				if i >= len(alphabet) || alphabet[i] != p {
+					alphaOK = false
+				}
+			}
+			for i, f := range out {
+				if in[i] == 0 && f != 0 {
+					alphaOK = false
+				}
+			}
+			key := fmt.Sprint(cin, scale)
+			if tseen[key] || len(tevs) >= *maxTables {
+				return
+			}
+			tseen[key] = true
+			if int64(sum)*int64(scale) >= 1<<30 {
+				big = true
+			}
+			tevs = append(tevs, tr.Ev{"ev": "NORM", "in": cin, "scale": scale, "total": totalFreq, "conv": "codec", "big": big, "err": "", "panic": false,
+				"out": cout, "n": len(cin), "alphaOK": alphaOK})
+		}
+	}
 	evs := make([]tr.Ev, len(cases))
 	var wg sync.WaitGroup
 	sem := make(chan struct{}, *par)
@@ -573,6 +627,17 @@ func cmdEntropy(args []string) int {
 	}
 	w.EmitAll(evs)
 	w.Close()
+	if *tables != "" {
+		tw, err := tr.Open(*tables)
+		if err != nil {
+			return 2
+		}
+		tmu.Lock()
+		tw.EmitAll(tevs)
+		tw.Emit(tr.Ev{"ev": "NORMSUM", "calls": tcalls, "distinct": len(tevs), "inconsistentTotal": tpre})
+		tmu.Unlock()
+		tw.Close()
+	}
 	s := recSummary{ByMode: map[string]int{}}
 	distinct := map[string]bool{}
 	for i := range evs {
